@@ -94,6 +94,31 @@ CLAIMED = {
               "on the implementation."),
         design="6/C04", technique="Lean 4 proof (invariant of the argmax scan) + correspondence",
         note=PROOF_NOTE + " Peak wavenumber tolerance is C07's sampled convergence clause."),
+    "C13": dict(
+        text=("Lean 4 theorems over the ordered-field model of enclosing_points_1d / interpolation_weights_1d / "
+              "NdInterpolator._data_interpolator (one coordinate, joint NaN mask over the passive dimensions as in the code): "
+              "searchsorted characterised on strictly increasing grids; a target on a node returns that node's data even if the "
+              "next node is missing; the right end point; strictly between two nodes the convex combination, hence between "
+              "the neighbouring values; exact for linear data; outside the grid every element missing (no extrapolation); a "
+              "missing neighbour dropped iff the surviving weight exceeds one half; descending grids = ascending problem in "
+              "the flipped frame; nearest = round half to even. Correspondence: indices, weights and full results of "
+              "interpolate_dataset_along_axis / _grid for rank 1..4, any axis position, NaN patterns, datetime64 axes, "
+              "against exact rationals; spectrum-level time/frequency interpolation (energy-weighted moments, fill value, "
+              "linear and nearest) on the implementation."),
+        design="6/C13", technique="Lean 4 proof over ordered fields (sorted-list search, case analysis of the corner loop) + exact-rational correspondence",
+        note=PROOF_NOTE + " Interpretation: the NaN mask is joint over the passive dimensions (one missing element drops the whole slab of that node), as coded; 'identical at nodes' is claimed for slabs without missing values."),
+    "C14": dict(
+        text=("Lean 4 theorems: periodic reduction and wrapped differences are invariant under shifts by any whole number of "
+              "periods, so targets that differ by k*P get identical indices, fraction and result; on every grid covering the "
+              "circle (gaps < P/2, within one turn) every target is bracketed by two cyclically adjacent nodes incl. the "
+              "(last, first) pair with fraction in [0,1), so with clean neighbours no result is missing; the unit-vector "
+              "average lies between its neighbours on the shorter arc (cross-product identities, bisector projection "
+              "1 + u0.u1 >= 0); wrapped results lie in [discont-P, discont) ([0,360) for directions) and are congruent to "
+              "the unwrapped value; shortest-arc linear interpolation has |delta| <= P/2. Correspondence: periodic indices, "
+              "weights, dataset interpolation along direction/longitude, interpolate_periodic against exact rationals; "
+              "angular data, data frames, Track.interpolate and interpolate_at_points across the antimeridian on the code."),
+        design="6/C14", technique="Lean 4 proof (floor/modular arithmetic over ordered fields) + exact-rational correspondence",
+        note=PROOF_NOTE + " Not shown: libm arctan2 of the complex64 average (1e-3 degree comparison with a float64 reference)."),
 }
 
 NOT_YET = "check not built yet in this session; see DESIGN.md section 9 (build order)"
